@@ -148,7 +148,7 @@ class C05(Engine):
 			try:
 				rec = proj.run(force=True)
 				self.enum_counts[f'{which}:cold'] = len([e for e in rec['trace'] if e[0] == 'write' and is_cache(e[1]) and e[2] >= 2])
-				leaf = pool['modules'][-1]
+				leaf = pools.core(pool)[-1]
 				proj.set_variant(leaf, 1, 10**9)
 				rec = proj.run(force=True)
 				self.enum_counts[f'{which}:edit'] = len([e for e in rec['trace'] if e[0] == 'write' and is_cache(e[1]) and e[2] >= 2])
@@ -161,7 +161,7 @@ class C05(Engine):
 		cases: list[dict[str, Any]] = []
 		for which in (0, 1, 3):
 			pool = pools.fixed_pool(which)
-			mods = pool['modules']
+			mods = pools.core(pool)
 			top, leaf = mods[0], mods[-1]
 			mid = mods[1] if len(mods) > 2 else mods[-1]
 			def c(ops: list[dict[str, Any]], **kw: Any) -> None:
@@ -183,15 +183,21 @@ class C05(Engine):
 			c([op_run(fault={'kind': 'enospc@write', 'pick': 0.9, 'prefer': 'symbols', 'kmode': 'half'}), op_run(), {'op': 'clear'}, op_run()])
 			c([op_run(), {'op': 'edit', 'm': leaf, 'v': 1, 'dt': 10**9}, op_run(fault={'kind': 'eacces@unlink', 'pick': 0.0, 'prefer': None}), op_run()])
 			c([op_run()], truly_cold=True)
+			c([op_run(fault={'kind': 'crash@open', 'pick': 0.99, 'prefer': 'tree'}), op_run()])
+			c([op_run(), {'op': 'edit', 'm': leaf, 'v': 1, 'dt': 10**9}, op_run(fault={'kind': 'crash@open', 'pick': 0.5, 'prefer': 'symbols'}), op_run()])
+			if 'src.sb' in pool['variants']:
+				# exchange the contents of two sibling modules that one importer imports both (identity must not be a multiset of hashes)
+				c([op_run(), {'op': 'edit', 'm': 'src.sb', 'v': 1, 'dt': 10**9}, {'op': 'edit', 'm': 'src.sc', 'v': 0, 'dt': 10**9}, op_run()])
+				c([op_run(), {'op': 'edit', 'm': 'src.sb', 'v': 2, 'dt': 10**9}, op_run(), {'op': 'edit', 'm': 'src.sc', 'v': 2, 'dt': 10**9}, {'op': 'edit', 'm': 'src.sb', 'v': 1, 'dt': 10**9}, op_run()])
 		# fault-enumeration pass: every cache write event x offsets, then a normal run
 		kmodes = ['0', '1', 'half', 'last']
 		for which in (0, 1):
 			pool = pools.fixed_pool(which)
-			leaf = pool['modules'][-1]
+			leaf = pools.core(pool)[-1]
 			for stage in ('cold', 'edit'):
 				n = self.enum_counts.get(f'{which}:{stage}', 0)
 				pre = [] if stage == 'cold' else [op_run(), {'op': 'edit', 'm': leaf, 'v': 1, 'dt': 10**9}]
-				combos = [(nth, kind, km) for nth in range(n) for kind, km in ([('crash@write', k) for k in kmodes] + [('crash@write+zeros', 'half')])]
+				combos = [(nth, kind, km) for nth in range(n) for kind, km in ([('crash@write', k) for k in kmodes] + [('crash@write+zeros', 'half'), ('crash@open', '0')])]
 				if getattr(self, 'tier', 'quick') == 'quick':
 					step = max(1, len(combos) // 12)
 					combos = combos[which::step]
